@@ -59,6 +59,11 @@ def _classes():
                 self.seen[key] = len(self.seen)
                 if len(self.seen) > MAX_POINTS_GUARD:
                     raise Runaway()
+            return self.value(key)
+
+        def value(self, key):
+            """the function value, without recording the point (used for the analytic comparison values of the
+            evaluation_points diagnostics, which are not integrand evaluations of the adaptive process)"""
             out = []
             for ck, pk in zip(self.c, self.p):
                 v = self.scale
@@ -101,11 +106,31 @@ def _classes():
                 self.__dict__.setdefault("_verif_log", []).append({"kind": "refine"})
                 return super().refine()
 
+            def __call__(self, interpolation_points):
+                r = super().__call__(interpolation_points)
+                self.__dict__.setdefault("_verif_log", []).append(
+                    {"kind": "call", "values": np.asarray(r, dtype=float).tolist()})
+                return r
+
         Observed.__name__ = Observed.__qualname__ = name
         Observed.__module__ = __name__
         globals()[name] = Observed
         return Observed
 
+    from sparseSpACE.GridOperation import Integration
+
+    class ObsIntegration(Integration):
+        """Integration whose analytic comparison value (`eval_analytic`, used only by the evaluation_points diagnostics of the
+        loop) does not pass through the integrand's own record of evaluation points; nothing else differs"""
+
+        def eval_analytic(self, coordinate):
+            f = self.f
+            return f.value(tuple(float(x) for x in coordinate)) if hasattr(f, "value") else super().eval_analytic(coordinate)
+
+    ObsIntegration.__qualname__ = "ObsIntegration"
+    ObsIntegration.__module__ = __name__
+    globals()["ObsIntegration"] = ObsIntegration
+    _CLS["Integration"] = ObsIntegration
     DyPoly.__qualname__ = "DyPoly"
     DyPoly.__module__ = __name__
     globals()["DyPoly"] = DyPoly
@@ -170,9 +195,9 @@ def build(cfg, f=None, op=None):
     an Integration operation that already drove an earlier run (object history)"""
     import numpy as np
     from sparseSpACE.Grid import TrapezoidalGrid, GlobalTrapezoidalGrid
-    from sparseSpACE.GridOperation import Integration
     from sparseSpACE.ErrorCalculator import ErrorCalculatorSingleDimVolumeGuided, ErrorCalculatorExtendSplit
     C = _classes()
+    Integration = C["Integration"]
     dim = cfg["dim"]
     a, b = np.zeros(dim), np.ones(dim)
     if op is not None:
@@ -214,7 +239,10 @@ def build(cfg, f=None, op=None):
 
 def run_kwargs(cfg):
     """options of performSpatiallyAdaptiv that belong to the configuration"""
-    return {"recalculate_frequently": True} if cfg.get("recalc") else {}
+    kw = {"recalculate_frequently": True} if cfg.get("recalc") else {}
+    if cfg.get("eval_points"):
+        kw["evaluation_points"] = [tuple(float(x) for x in p) for p in cfg["eval_points"]]
+    return kw
 
 
 def run_impl(cfg, limits, prior=None):
@@ -352,16 +380,50 @@ def same_error(norm, impl_err, exact, unit=1.0):
 
 
 # ------------------------------------------------------------------------------------------------ one case
-def check_run(ctx, drv, cfg, limits, scout_stream=None, tag_extra=None, prior=None):
+def interpolation_histories(ctx_viol, cfg, ret, log_part, n_before, n_evals, f, prefix=""):
+    """the two interpolation-error histories ([8] L2, [9] max) are returned history arrays as well: one entry per evaluation
+    when evaluation_points is given (none otherwise), entry i = 2-norm / max-norm of (analytic value - interpolated value) over
+    the evaluation points, the interpolated values being those the strategy's __call__ returned in that pass of the loop"""
+    import numpy as np
+    want = n_before + n_evals if cfg.get("eval_points") else 0
+    a8, a9 = list(ret[8]), list(ret[9])
+    if len(a8) != want or len(a9) != want:
+        ctx_viol(prefix + "array-lengths", {"interpolation_error_arrayL2": len(a8), "interpolation_error_arrayMax": len(a9),
+                                            "evaluations_made": n_before + n_evals, "evaluation_points_given": bool(cfg.get("eval_points"))})
+        return
+    if not cfg.get("eval_points"):
+        return
+    calls = [e for e in log_part if e["kind"] == "call"]
+    if len(calls) != n_evals:
+        return
+    pts = [tuple(float(x) for x in q) for q in cfg["eval_points"]]
+    real = np.array([np.atleast_1d(f.value(q)) for q in pts], dtype=float)
+    for k, c in enumerate(calls):
+        diff = (real - np.array(c["values"], dtype=float).reshape(real.shape)).ravel()
+        # scipy.linalg.norm of the list of difference vectors = Frobenius norm / max row sum; recompute the simple way for
+        # scalar integrands only (for vector outputs the matrix norms of the code are compared by length only)
+        if real.shape[1] != 1:
+            continue
+        l2, mx = float(np.sqrt(np.sum(diff * diff))), float(np.max(np.abs(diff))) if len(diff) else 0.0
+        i = n_before + k
+        if not (relclose(a8[i], l2, 1e-9) and relclose(a9[i], mx, 1e-9)):
+            ctx_viol(prefix + "interpolation-error-history", {"evaluation": i, "returned_L2": float(a8[i]), "returned_max": float(a9[i]),
+                                                              "recomputed_L2": l2, "recomputed_max": mx})
+            return
+
+
+def check_run(ctx, drv, cfg, limits, scout_stream=None, tag_extra=None, prior=None, then=None):
     """run cfg with limits on the implementation, compare with the model, evaluate the oracle.
     returns (ok, observed stream or None)"""
     case = {"cfg": cfg, "limits": limits}
     if prior is not None:
         case["prior"] = prior
+    if then is not None:
+        case["then"] = then
     rclass = ref_class(reference_of(cfg, make_f(cfg)))
     tags = {"strategy": cfg["strategy"], "ref": rclass, "norm": cfg["norm"], "dim": cfg["dim"],
             "outputs": len(cfg["coeffs"]), "scale": cfg.get("scale", 1.0), "cache": cfg.get("cache", True),
-            "grid": cfg.get("grid", "default"), "recalc": cfg.get("recalc")}
+            "grid": cfg.get("grid", "default"), "recalc": cfg.get("recalc"), "evaluation_points": bool(cfg.get("eval_points"))}
     ctx.count("refclass_" + rclass)
     tags["history"] = prior["kind"] if prior else "fresh"
     if tag_extra:
@@ -412,9 +474,12 @@ def check_run(ctx, drv, cfg, limits, scout_stream=None, tag_extra=None, prior=No
     if not runaway and not (len(ret[5]) == len(ret[6]) == len(ret[7]) == n_eval):
         viol("array-lengths", {"error_array": len(ret[5]), "num_point_array": len(ret[6]),
                                "surplus_error_array": len(ret[7]), "evaluations_made": n_eval})
-    if not runaway and (n_ref != n_eval - 1 or (log and log[-1]["kind"] != "eval")):
+    if not runaway:
+        interpolation_histories(viol, cfg, ret, log, 0, n_eval, out["f"])
+    events = [e for e in log if e["kind"] in ("eval", "refine")]
+    if not runaway and (n_ref != n_eval - 1 or (events and events[-1]["kind"] != "eval")):
         viol("refine-after-stop", {"refines": n_ref, "evaluations": n_eval,
-                                   "last_event": log[-1]["kind"] if log else None})
+                                   "last_event": events[-1]["kind"] if events else None})
     first = None
     for i, (e, p, s) in enumerate(stream):
         if stop_rule(limits, e, p):
@@ -527,7 +592,104 @@ def check_run(ctx, drv, cfg, limits, scout_stream=None, tag_extra=None, prior=No
             lines.append(";".join(",".join(fr(x) for x in p) for p in (extra + b + b[:2])) or "-")
         m = drv.ask("cache " + "|".join(lines))
         corr("cache-sizes", str(pts).replace(" ", ""), m)
+    if then is not None and out["status"] == "ok":
+        ok = second_call(ctx, drv, cfg, limits, then, out, stream, scout_stream, viol, corr) and ok
     return ok, stream
+
+
+def second_call(ctx, drv, cfg, L1, then, out, stream1, scout_stream, viol, corr):
+    """continue_adaptive_refinement(limits of THIS call) on the instance that has just stopped: the stopping rule, the arrays
+    and the counts of the second call are judged with the second call's own limits"""
+    import numpy as np
+    L2 = then["limits"]
+    sa, f = out["sa"], out["f"]
+    n1 = len(stream1)
+    log = sa.__dict__.setdefault("_verif_log", [])
+    mark = len(log)
+    ok = True
+    try:
+        ret = quiet(sa.continue_adaptive_refinement, tol=L2["tol"], max_evaluations=L2["max"], min_evaluations=L2["min"])
+    except Runaway:
+        part = [e for e in log[mark:] if e["kind"] == "eval"]
+        es, ps = [float(x) for x in sa.error_array[n1:]], [int(x) for x in sa.num_point_array[n1:]]
+        sat = [i for i, (e, p) in enumerate(zip(es, ps)) if stop_rule(L2, e, p)]
+        if sat:
+            viol("continue-does-not-stop", {"evaluations_in_call": len(part), "first_index_satisfying_rule": sat[0], "limits": L2,
+                                            "errors": es[:8], "points": ps[:8]})
+            return False
+        corr("continue-stop", "no stop within %d evaluations" % len(part), "the generated limits of the second call stop")
+        return False
+    except Exception as e:  # noqa: BLE001
+        viol("continue-raises", {"exception": "%s: %s" % (type(e).__name__, e)})
+        return False
+    part = log[mark:]
+    evals2 = [e for e in part if e["kind"] == "eval"]
+    events2 = [e for e in part if e["kind"] in ("eval", "refine")]
+    n_ref2 = sum(1 for e in part if e["kind"] == "refine")
+    full = stream_of(ret)
+    stream2 = full[n1:]
+    n2 = len(stream2)
+    ctx.count("continue_stop_index_%d" % min(n2 - 1, 9))
+    if not (len(ret[5]) == len(ret[6]) == len(ret[7]) == n1 + len(evals2)) or \
+            [tuple(map(repr, x)) for x in full[:n1]] != [tuple(map(repr, x)) for x in stream1]:
+        viol("continue-array-lengths", {"error_array": len(ret[5]), "num_point_array": len(ret[6]), "surplus_error_array": len(ret[7]),
+                                        "entries_before_the_call": n1, "evaluations_in_the_call": len(evals2)})
+        ok = False
+    interpolation_histories(viol, cfg, ret, part, n1, len(evals2), f, prefix="continue-")
+    if n_ref2 != len(evals2) - 1 or (events2 and events2[-1]["kind"] != "eval") or (events2 and events2[0]["kind"] != "eval"):
+        viol("continue-refine-after-stop", {"refines": n_ref2, "evaluations": len(evals2),
+                                            "first_event": events2[0]["kind"] if events2 else None,
+                                            "last_event": events2[-1]["kind"] if events2 else None})
+        ok = False
+    first = next((i for i, (e, p, _s) in enumerate(stream2) if stop_rule(L2, e, p)), None)
+    if n2 and first != n2 - 1:
+        viol("continue-stop-index", {"stopped_at": n2 - 1, "first_index_satisfying_rule_of_this_call": first, "limits_of_this_call": L2,
+                                     "limits_of_the_first_call": L1, "errors": [x[0] for x in stream2][:12],
+                                     "points": [x[1] for x in stream2][:12]})
+        ok = False
+    pts = [x[1] for x in full]
+    if any(pts[i] > pts[i + 1] for i in range(len(pts) - 1)):
+        viol("continue-points-decrease", {"points": pts})
+        ok = False
+    for k, ev in enumerate(evals2[:n2]):
+        if stream2[k][1] != ev["seen"]:
+            viol("continue-point-count", {"evaluation_in_call": k, "reported": stream2[k][1], "distinct_evaluations": ev["seen"]})
+            ok = False
+            break
+    ref = reference_of(cfg, f)
+    if ref is not None:
+        for k, ev in enumerate(evals2[:n2]):
+            ex = error_formula(cfg["norm"], ref, ev["result"])
+            if not same_error(cfg["norm"], stream2[k][0], ex, error_unit(ref, ev["result"])):
+                viol("continue-error-formula", {"evaluation_in_call": k, "reported_error": stream2[k][0],
+                                                "deviation_from_reference": None if ex is None else float(ex)})
+                ok = False
+                break
+    if n2 and [float(x) for x in np.atleast_1d(ret[3])] != evals2[-1]["result"]:
+        viol("continue-result-not-last-evaluation", {"returned": [float(x) for x in np.atleast_1d(ret[3])], "at_last_evaluation": evals2[-1]["result"]})
+        ok = False
+    # ---- model: the stop rule of the second call takes the limits of THAT call
+    own = parse_stop(drv.ask("run %s %s" % (lim_str(L2), stream_str(stream2))))
+    corr("continue-stop-on-own-stream", n2 - 1, None if own is None else own["i"])
+    if n2 and tuple(map(repr, stream2[0][:2])) == tuple(map(repr, stream1[-1][:2])):
+        # re-entrant re-evaluation: the two-leg run of the model on the merged stream (resume L1 L2) = what the code did
+        merged = stream1 + stream2[1:]
+        line = drv.ask("resume %s %s %s" % (lim_str(L1), lim_str(L2), stream_str(merged)))
+        impl = "stop1 i=%d stop i=%d evals=%d refines=%d lens=%d,%d,%d" % (n1 - 1, n2 - 1, len(evals2), n_ref2, len(ret[5]), len(ret[6]), len(ret[7]))
+        mdl = line
+        if line.startswith("stop1"):
+            p2 = parse_stop(line.split(" ", 2)[2])
+            mdl = "%s stop i=%d evals=%d refines=%d lens=%d,%d,%d" % (" ".join(line.split(" ")[:2]), p2["i"], p2["evals"], p2["refines"],
+                                                                       p2["lens"][0], p2["lens"][1], p2["lens"][2])
+        corr("two-call-run", impl, mdl)
+        ctx.count("two_call_model_runs")
+    if scout_stream is not None and len(scout_stream) >= n1:
+        # prediction from the scout stream: the second call sees the scout's observations from the interruption index on
+        pred = parse_stop(drv.ask("run %s %s" % (lim_str(L2), stream_str(scout_stream[n1 - 1:]))))
+        if pred is not None:
+            corr("continue-stop-predicted-from-scout", "stop i=%d pts=%s" % (n2 - 1, [x[1] for x in stream2]),
+                 "stop i=%d pts=%s" % (pred["i"], pred["pts"]))
+    return ok
 
 
 # ------------------------------------------------------------------------------------------------ generators
@@ -553,6 +715,12 @@ def gen_cfg(rng, thorough, strategy=None):
         cfg["grid"] = rng.choice(["trapezoidal", "trapezoidal", "trapezoidal", "gauss_legendre", "gauss_legendre", "clenshaw_curtis"])
     # recalculate_frequently=True with the threshold lowered to 1-3 refined objects: refine() re-evaluates everything
     cfg["recalc"] = rng.choice([None, None, None, 1, 2, 3])
+    # the rarely used option evaluation_points: the loop interpolates at these points after every evaluation and returns two
+    # more history arrays (interpolation errors in the 2- and the max-norm)
+    # (not on the Gauss-Legendre grid: it has no boundary points and the d-linear interpolation of the code does not extrapolate)
+    if rng.random() < 0.25 and cfg.get("grid") != "gauss_legendre":
+        cfg["eval_points"] = [[rng.choice([0.0, 1.0, 0.5, 0.25, 0.75, 0.3, 0.7, 0.125, 0.9]) for _ in range(dim)]
+                              for _ in range(rng.randint(2, 5))]
     return cfg
 
 
@@ -591,6 +759,8 @@ def run(ctx):
                 "a scout run (tol=-1) gives the stream, limits (tol,min,max) are then put exactly on its boundaries incl. limits met at the first "
                 "evaluation; in 40 % of the runs the same strategy object / the same Integration operation with a new strategy object / the same Function "
                 "object with a new operation (same or other strategy) has already driven a complete run (counters of the harness reset per run); "
+                "25 % of the configurations pass evaluation_points (two more history arrays); 40 % of the runs are followed by "
+                "continue_adaptive_refinement with redrawn limits (tighter or looser tol, other min/max), judged by the limits of that call; "
                 "the model must predict stop index / evaluations / refinements / array lengths from the scout stream; a case is one "
                 "(configuration, limits) run, distinct by both, non-trivial if it made at least one refinement or stopped at the first evaluation by a limit")
     drv = ctx.driver("drv_c13")
@@ -616,6 +786,7 @@ def run(ctx):
         ctx.count("strategy_" + cfg["strategy"]); ctx.count("ref_" + cfg["ref"]); ctx.count("norm_" + cfg["norm"])
         ctx.count("dim_%d" % cfg["dim"]); ctx.count("outputs_%d" % len(cfg["coeffs"]))
         ctx.count("grid_" + cfg.get("grid", "trapezoidal" if cfg["strategy"] == "extend_split" else "global_trapezoidal")); ctx.count("recalc_%s" % cfg.get("recalc"))
+        ctx.count("evaluation_points_%s" % bool(cfg.get("eval_points")))
         ctx.count("scale_" + ("1" if cfg["scale"] == 1.0 else ("tiny" if cfg["scale"] < 1 else "huge"))); ctx.count("cache_%s" % cfg["cache"])
         ctx.case({"cfg": cfg, "limits": scout_limits}, nontrivial=bool(stream and len(stream) > 1),
                  sample={"cfg": cfg, "limits": scout_limits, "points": [x[1] for x in (stream or [])]} if k < 2 else None)
@@ -647,10 +818,23 @@ def run(ctx):
             same_obj = prior is not None and prior["kind"] == "same_object"
             if same_obj and L["max"] is None:
                 L = dict(L, max=stream[-1][1] - 1)      # no prediction that a tolerance is ever reached: bound the run
-            ok2, s2 = check_run(ctx, drv, cfg, L, scout_stream=None if same_obj else stream, prior=prior)
+            # multi-call history: in 40 % of the runs the stopped instance is continued with continue_adaptive_refinement and
+            # DIFFERENT limits (tol, min, max all redrawn: tighter or looser); the second call is judged by its own limits
+            then = None
+            if ctx.rng.random() < 0.4:
+                Lc = gen_limits(ctx.rng, stream, 1)[0]
+                p1 = parse_stop(drv.ask("run %s %s" % (lim_str(L), stream_str(stream))))
+                i1 = p1["i"] if p1 else len(stream) - 1
+                if same_obj or Lc["max"] is None and parse_stop(drv.ask("run %s %s" % (lim_str(Lc), stream_str(stream[i1:])))) is None:
+                    Lc = dict(Lc, max=stream[-1][1] - 1 if Lc["max"] is None else Lc["max"])
+                if parse_stop(drv.ask("run %s %s" % (lim_str(Lc), stream_str(stream[i1:])))) is None:
+                    Lc = dict(Lc, max=stream[-1][1] - 1)
+                then = {"limits": Lc}
+                ctx.count("then_continue_" + ("tighter_tol" if Lc["tol"] < L["tol"] else ("looser_tol" if Lc["tol"] > L["tol"] else "same_tol")))
+            ok2, s2 = check_run(ctx, drv, cfg, L, scout_stream=None if same_obj else stream, prior=prior, then=then)
             n2 = len(s2) if s2 else 0
             ctx.count("stopped_first" if n2 == 1 else "stopped_later")
-            ctx.case({"cfg": cfg, "limits": L, "prior": prior}, nontrivial=n2 >= 1)
+            ctx.case({"cfg": cfg, "limits": L, "prior": prior, "then": then}, nontrivial=n2 >= 1)
         if (len(ctx.violations) + len(ctx.corr_breaks)) >= ctx.max_reports:
             break
 
@@ -660,7 +844,7 @@ def replay(ctx, rp):
     drv = ctx.driver("drv_c13")
     _classes()
     cfg, L = case["cfg"], case["limits"]
-    ok, stream = check_run(ctx, drv, cfg, L, scout_stream=None, prior=case.get("prior"))
+    ok, stream = check_run(ctx, drv, cfg, L, scout_stream=None, prior=case.get("prior"), then=case.get("then"))
     print("replay: %s" % ("property holds and model agrees on this case" if ok else "REPRODUCED"))
     print("  observed stream (error, points, surplus):", stream)
     for v in ctx.violations[:3]:
